@@ -1,4 +1,5 @@
 #!/bin/bash
+export VERIF_EVIDENCE_DIR=${VERIF_EVIDENCE_DIR:-/verif/replays/evidence-changed-tree}
 # tools/try_patch.sh <patch.diff> <prop> [<prop>...] : apply a seeded change to /repo, run the checks, undo it.
 P="$1"; shift
 cd /repo || exit 9
